@@ -204,6 +204,18 @@ pub fn gen_cases(s: &SetInfo, ctx: &Ctx) -> Vec<Case> {
             }
             push("chunks", vec![fop!("in", hex(v)), fop!("chunks", 0, s.log2_base / 4, "-")]);
             push("chunks-odd", vec![fop!("in", hex(v)), fop!("chunks", 0, 7, "-")]);
+            let w = (s.log2_base / 4) as usize;
+            let need = (v.bits() as usize).div_ceil(w).max(1);
+            push("chunks-n", vec![fop!("in", hex(v)), fop!("chunks", 0, w, need)]);
+            let need7 = (v.bits() as usize).div_ceil(7).max(1);
+            push("chunks-odd-n", vec![fop!("in", hex(v)), fop!("chunks", 0, 7, need7)]);
+            if need7 > 1 {
+                push("chunks-odd-short", vec![fop!("in", hex(v)), fop!("chunks", 0, 7, need7 - 1)]);
+            }
+            if need > 1 {
+                push("chunks-short", vec![fop!("in", hex(v)), fop!("chunks", 0, w, need - 1)]);
+            }
+            push("chunks-odd-long", vec![fop!("in", hex(v)), fop!("chunks", 0, 7, s.num_bits.div_ceil(7) + 2)]);
         }
         push("inpi", vec![fop!("inpi", hex(v)), fop!("add", 0, 0), fop!("pi", 1)]);
         push("assertnz", vec![fop!("in", hex(v)), fop!("assertnz", 0)]);
@@ -382,10 +394,28 @@ pub fn gen_cases(s: &SetInfo, ctx: &Ctx) -> Vec<Case> {
     cases
 }
 
-fn check_values(r: &Reference, out: &Outcome) -> Option<String> {
+fn check_values(m: &BigUint, ops: &[Op], r: &Reference, out: &Outcome) -> Option<String> {
     for (i, v) in r.vals.iter().enumerate() {
         if i >= out.outs.len() {
             break;
+        }
+        // documented non-canonical outputs: only the represented residue is specified
+        let noncanonical = (ops[i].name == "bits" && ops[i].args[2] == "0") || ops[i].name == "chunks";
+        if noncanonical {
+            if let (RVal::Scal(x), Some(got)) = (v, &out.scalars[i]) {
+                let w: u64 = if ops[i].name == "chunks" { ops[i].args[1].parse().unwrap() } else { 1 };
+                let val = |l: &Vec<BigUint>| l.iter().enumerate().fold(BigUint::zero(), |a, (j, c)| a + (c << (w * j as u64))) % m;
+                if val(got) != val(x) {
+                    return Some(format!("op {i}: non-canonical decomposition {got:?} does not represent {x:?}"));
+                }
+                if ops[i].name == "chunks" && ops[i].args[2] != "-" && got.len() != ops[i].args[2].parse::<usize>().unwrap() {
+                    return Some(format!("op {i}: {} chunks returned, {} requested", got.len(), ops[i].args[2]));
+                }
+                if got.iter().any(|c| c.bits() > w) {
+                    return Some(format!("op {i}: chunk wider than {w} bits"));
+                }
+            }
+            continue;
         }
         match v {
             RVal::Fe(x) => {
@@ -432,7 +462,6 @@ where
     ctx.count(&format!("fp-verdict:{verdict}"));
     let key = format!("{}:{}", s.name, prog);
     // oracles
-    let chunks_default = case.ops.iter().any(|o| o.name == "chunks" && o.args[2] == "-");
     if r.sat {
         if verdict != "sat" {
             ofail(ctx, 
@@ -440,8 +469,8 @@ where
                 "the circuit of an operation with admissible operands is not satisfied by the honest witness",
                 json!({"set": s.name, "program": prog, "verdict": format!("{:?}", run.verdict), "kind": case.kind}),
             );
-        } else if !chunks_default {
-            if let Some(d) = check_values(&r, &run.outcome) {
+        } else {
+            if let Some(d) = check_values(&s.m, &case.ops, &r, &run.outcome) {
                 ofail(ctx, 
                     &format!("wrong-value:{key}"),
                     "an operation returns a value different from the reference arithmetic",
@@ -589,7 +618,7 @@ where
             let ok = catch(|| prover.verify().is_ok()).unwrap_or(false);
             prover.verif_advice_mut()[c.col][c.row] = old;
             ctx.count(&format!("tamper:{}:{}", if rname.starts_with("Foreign") { rname.as_str() } else { "other" }, if ok { "ACCEPTED" } else { "rejected" }));
-            if ok {
+            if ok && rname.starts_with("Foreign") {
                 ofail(ctx, 
                     &format!("tamper-accepted:{}:{}:{}", s.name, rname, off),
                     "a changed advice cell (quotient / carry / limb) is accepted by the real constraint system",
@@ -608,6 +637,8 @@ where
 {
     let s = set_info::<F, K>(name);
     let cases = gen_cases(&s, ctx);
+    crate::gates::geval::<F, K>(ctx, name, if ctx.quick() { 6 } else { 40 });
+    let mut done_rows = 0usize;
     let mut done_wrong = 0;
     let mut done_tamper = std::collections::BTreeMap::<String, usize>::new();
     for case in &cases {
@@ -617,6 +648,15 @@ where
             if done_wrong < lim && matches!(case.kind.as_str(), "binary" | "unary" | "random" | "chain-double") {
                 done_wrong += 1;
                 wrong_public::<F, K>(ctx, &s, case);
+            }
+        }
+        if run.verdict == Ok(true)
+            && matches!(case.kind.as_str(), "binary" | "div" | "unnormalised" | "chain-sub" | "chain-double" | "random" | "lc" | "mulc" | "frombits")
+            && done_rows < if ctx.quick() { 60 } else { 600 }
+        {
+            if let Some(rec) = record::<F, K>(&case.ops) {
+                done_rows += 1;
+                crate::gates::rows::<F, K>(ctx, name, &rec, 4);
             }
         }
         let per_kind = if ctx.quick() { 1 } else { 6 };
